@@ -400,17 +400,24 @@ func newMetaGenState(c *runCtx) *metaGenState {
 				g.asPar[cn][p] += " exp=" + g.expStr() + "_"
 			}
 		}
-		// at most one mid-level object (a split child that is itself an EC parent): id 5
+		// at most one mid-level virtual object: id 12 is then a size-split child of a v2 parent that is itself
+		// EC-coded (never stored as a whole - an object is either stored physically or split into parts)
 		mid := r.IntN(3) == 0
-		midGP := 9 + r.IntN(4)
+		midGP := 9 + r.IntN(3)
 		midF := midGP - 8
 		if mid {
-			g.asPar[cn][5] = fmt.Sprintf("size=20 first=%d", midF)
+			g.asPar[cn][12] = fmt.Sprintf("size=20 first=%d", midF)
 		}
 		parentFields := func(pre string, p int) string {
 			out := fmt.Sprintf(" %sid=%d", pre, p)
 			for _, f := range strings.Fields(g.asPar[cn][p]) {
 				out += " " + pre + f
+			}
+			if mid && p == 12 && pre == "p." {
+				out += fmt.Sprintf(" g.id=%d", midGP)
+				for _, f := range strings.Fields(g.asPar[cn][midGP]) {
+					out += " g." + f
+				}
 			}
 			return out
 		}
@@ -427,6 +434,7 @@ func newMetaGenState(c *runCtx) *metaGenState {
 		}
 		if mid {
 			kind[midGP] = 0
+			kind[12] = 2
 		}
 		pick := func(k int) int { // a parent of the given kind, 0 if there is none
 			var c []int
@@ -441,10 +449,6 @@ func newMetaGenState(c *runCtx) *metaGenState {
 			return c[r.IntN(len(c))]
 		}
 		for o := 1; o <= 8; o++ {
-			if mid && o == 5 {
-				g.self[cn][o] = fmt.Sprintf("typ=REG size=20 first=%d", midF) + parentFields("p.", midGP)
-				continue
-			}
 			root := withExp(fmt.Sprintf("typ=REG size=%d", r.IntN(40)))
 			pv2, pv1, pec := pick(0), pick(1), pick(2)
 			// first id / split id are functions of the parent: members of one chain agree on them
@@ -468,8 +472,8 @@ func newMetaGenState(c *runCtx) *metaGenState {
 				g.self[cn][o] = fmt.Sprintf("typ=REG size=%d first=%d par=%d", r.IntN(20), F, pv2)
 			case k < 68 && pec != 0: // EC part
 				g.self[cn][o] = fmt.Sprintf("typ=REG size=10 ec=%d/%d", r.IntN(2), r.IntN(3)) + parentFields("p.", pec)
-			case k < 72 && mid && o < 5: // EC part of the mid-level object
-				g.self[cn][o] = fmt.Sprintf("typ=REG size=5 ec=0/%d", r.IntN(3)) + parentFields("p.", 5) + parentFields("g.", midGP)
+			case k < 72 && mid: // EC part of the mid-level object
+				g.self[cn][o] = fmt.Sprintf("typ=REG size=5 ec=0/%d", r.IntN(3)) + parentFields("p.", 12)
 			case k < 84:
 				g.self[cn][o] = withExp(fmt.Sprintf("typ=TS assoc=%d", g.targetNot(o)))
 			case k < 96:
